@@ -222,7 +222,11 @@ def check(script, violate, dist=None, expect_accept=False, timeout=20):
     explained = fence_open
     for n in names:
         if n not in endo:
-            if any(re.search(r'(?<![A-Za-z_0-9.])' + re.escape(n) + r'\s*\(', t) for k, t in stmts if k == 'equation'):
+            if odd_fence:
+                violate('fence-parens-counted', f'statement assigning {n!r} contributes no equation: an unbalanced '
+                        'parenthesis inside a verbatim block makes the block swallow the statements after it')
+                explained = True
+            elif any(re.search(r'(?<![A-Za-z_0-9.])' + re.escape(n) + r'\s*\(', t) for k, t in stmts if k == 'equation'):
                 violate('dropped:lhs-name-called-as-function',
                         f'statement assigning {n!r} contributes no equation (the name is also called as a function)')
                 explained = True
